@@ -357,6 +357,10 @@ func (mw *msgWriter) addFiles(files []*File, isAttachment bool) {
 				disposition, mw.encoder.Encode(mw.charset.String(), sanitizeFilename(file.Name))))
 		}
 
+		if contentID, ok := file.getHeader(HeaderContentID); ok {
+			// a content-id set by the caller must not be able to start a header line of its own
+			file.setHeader(HeaderContentID, strings.ReplaceAll(strings.ReplaceAll(contentID, "\r", ""), "\n", ""))
+		}
 		if !isAttachment {
 			if _, ok := file.getHeader(HeaderContentID); !ok {
 				file.setHeader(HeaderContentID, fmt.Sprintf("<%s>", sanitizeFilename(file.Name)))
